@@ -198,7 +198,7 @@ pub open spec fn occurs_at(s: ObjString, sub: ObjString, i: int) -> bool {
 //@end
 
 //@fn file=yarel/src/core.rs path=string_find ret=r props=C13,C02
-//@  rewrite R1 R3 R16
+//@  rewrite R1 R3 R16 R17
 //@  subst ".try_as_obj_string().expect(\"Expected ObjString.\")" => ".try_as_obj_string().unwrap()"
 //@  subst "&string[i..i + substring.len()]" => "str_slice(string.as_str(), i, i + substring.len())"
 //@  subst "slice == substring.as_str()" => "str_slice_eq(&slice, substring.as_str())"
@@ -212,7 +212,7 @@ pub open spec fn occurs_at(s: ObjString, sub: ObjString, i: int) -> bool {
 //@  loop 0 invariant string.obj().blen() <= isize::MAX, substring.obj().blen() > 0, start < string.obj().blen(), num_args == 2
 //@  loop 0 invariant old(vm).slot(2) == Value::ObjString(string) && old(vm).slot(1) == Value::ObjString(substring) && string.obj().is_cb(start as int)
 //@  loop 0 invariant value_int(old(vm).slot(0)) matches Some(n) && norm(n, string.obj().blen() as int) == start
-//@  loop 0 invariant it.snapshot.end == string.obj().blen(), it.snapshot.start == start
+//@  loop 0 invariant it.snapshot.end <= string.obj().blen(), it.snapshot.end + substring.obj().blen() > string.obj().blen(), it.snapshot.start == start
 //@  loop 0 invariant forall|j: int| start <= j < start + it.index@ ==> !occurs_at(string.obj(), substring.obj(), j)
 //@  loop 0 invariant vm.slot(0) == old(vm).slot(0) && vm.slot(1) == old(vm).slot(1) && vm.slot(2) == old(vm).slot(2)
 //@  at loop0.start broadcast use axiom_cb; broadcast use axiom_bytes_len; broadcast use axiom_utf8_match_on_boundaries; broadcast use axiom_value_int_number;
